@@ -1285,3 +1285,63 @@ def closure_of_operand(F, body, op, depth=0):
     if rv["k"] == "ref":
         return closure_of_operand(F, body, {"k": "copy", "pl": rv["pl"]}, depth + 1)
     return None
+
+
+def depends_on_call(F, body, op, regexes, bodies, depth=0):
+    """Does operand `op` of `body` (may-)depend on the result of a call matching `regexes` — following the value
+    through the parameters of `body` into its call sites within `bodies` (helper extraction) and through closure
+    captures (deep_slice)?"""
+    sl = deep_slice(F, body, [op])
+    if sl.has_call(*regexes):
+        return True
+    if depth >= 3:
+        return False
+    for key, pi in sl.root_params:
+        root = F.bodies.get(key)
+        for fb in bodies:
+            for s, t in fb.calls():
+                if F.callee_body(t, fb.crate) is root and pi - 1 < len(t["args"]):
+                    if depends_on_call(F, fb, t["args"][pi - 1], regexes, bodies, depth + 1):
+                        return True
+    return False
+
+
+def lift_site(F, site, anc, depth=0):
+    """The site in ancestor body `anc` that stands for `site` of a closure nested in it: the call that receives the
+    closure value (`opt.and_then(|x| ..)`), else the closure's creation site.  `site` itself if already in `anc`."""
+    if site.body is anc or depth > 6:
+        return site
+    cc = closure_creation(F, site.body)
+    if cc is None:
+        return None
+    parent, csite, st = cc
+    uses, _ = forward_uses(parent, st["pl"]["l"])
+    at = uses[0][0] if uses else csite
+    return lift_site(F, at, anc, depth + 1)
+
+
+def canon_place_deep(F, body, pl, depth=0):
+    """canon_place, continued through closure captures into the creating body: (body, place)."""
+    cp = canon_place(body, pl)
+    if depth > 6 or body.kind not in NESTED_KINDS or cp["l"] != 1 or not cp["p"]:
+        return body, cp
+    e = cp["p"][0]
+    if not (isinstance(e, dict) and "f" in e and e.get("o", "").startswith("{upvar}")):
+        return body, cp
+    parent, ups = closure_upvar_operands(F, body)
+    if parent is None or e["f"] not in ups:
+        return body, cp
+    src = op_place(ups[e["f"]])
+    if src is None:
+        return body, cp
+    # the capture is either the value or a reference to it
+    rest = [x for x in cp["p"][1:]]
+    pb, pp = canon_place_deep(F, parent, src, depth + 1)
+    sd = pb.single_def(pp["l"]) if not pp["p"] else None
+    if sd and sd[1] == "assign" and sd[2]["rv"]["k"] == "ref":
+        # captured by reference: `*upvar` is the referenced place
+        base = canon_place_deep(F, pb, sd[2]["rv"]["pl"], depth + 1)
+        if rest and rest[0] == "*":
+            rest = rest[1:]
+        return base[0], {"l": base[1]["l"], "p": list(base[1]["p"]) + rest}
+    return pb, {"l": pp["l"], "p": list(pp["p"]) + rest}
